@@ -86,6 +86,12 @@ Example converted_example :
   = [(1, 11)].
 Proof. vm_compute. reflexivity. Qed.
 
+(* the implicit copy of a FlatMap (no move exists: std::move copies) is a value copy: the model's FCopy - copy,
+   mutate the original, move-construct from the copy, assign back - leaves contents and order as they were *)
+Theorem fm_copy_is_value_copy : forall m, fm_step m FCopy = (m, OUnit).
+Proof. reflexivity. Qed.
+Print Assumptions fm_copy_is_value_copy.
+
 (* ParameterizedObject: names unique in every reachable state *)
 Theorem po_nodup : forall ops, NoDup (map p_name (fst (po_run ops))).
 Proof. exact po_run_inv. Qed.
@@ -193,3 +199,28 @@ Example po_example :
       (snd (po_run [PSet 1 0 5; PGet 1 1 99; PGet 1 0 99; PSet 1 1 6; PReset; PGet 1 1 99]))
   = [OUnit; OVal 99; OVal 5; OUnit; OUnit; OVal 6].
 Proof. vm_compute. reflexivity. Qed.
+
+(* Copies of a ParameterizedObject (implicit copy constructor / assignment; there is no move): the copy SHARES every
+   Param that existed when it was made - a setParam through the copy on such a name is seen through the original
+   (value and type; likewise the query flag set by getParam) ... *)
+Theorem po_copy_shares_params : forall s n form v i,
+  find_ix (p2_h s) (p2_a s) n = Some i ->
+  let s1 := fst (po2_step s QCopyAB) in
+  let s2 := fst (po2_step s1 (QB (PSet n form v))) in
+  p2_a s2 = p2_a s /\ option_map p_data (nth_error (p2_h s2) i) = Some (store_of form v).
+Proof. exact po2_copy_shares. Qed.
+Print Assumptions po_copy_shares_params.
+
+(* ... while the LIST (which names, in which order) is per object: nothing done through one object adds, removes
+   or reorders the other's parameters *)
+Theorem po_copy_lists_independent : forall s o,
+  p2_a (fst (po2_step s (QB o))) = p2_a s /\ p2_b (fst (po2_step s (QA o))) = p2_b s.
+Proof. exact po2_lists_independent. Qed.
+Print Assumptions po_copy_lists_independent.
+
+Example po_copy_example :
+  let run := fold_left (fun s q => fst (po2_step s q)) in
+  let s := run [QA (PSet 1 0 5); QCopyAB; QB (PSet 1 0 6); QB (PSet 2 0 7); QB (PRemove 1)] (mkPo2 [] [] []) in
+  map (fun p => (p_name p, p_data p)) (p2_view (p2_h s) (p2_a s)) = [(1, Some (0, 6))] /\
+  map (fun p => (p_name p, p_data p)) (p2_view (p2_h s) (p2_b s)) = [(2, Some (0, 7))].
+Proof. vm_compute. auto. Qed.
